@@ -15,6 +15,7 @@ Answer to an event: the actions, `gh <p> <stop|0> <loc,…> ; disc <p> ; ban <p>
 -/
 import BHS.Model.Header
 import BHS.Model.Sync
+import BHS.Model.SyncGenStep
 import BHS.Model.SyncExp
 import BHS.Model.Node
 
@@ -83,19 +84,28 @@ def choiceStr (sp : Option Nat) : String :=
   | some p => toString p
   | none => "-"
 
-/-- run one event of the default engine; the random pick is whichever index reproduces the observed choice -/
+/-- run one event of the default engine; the random pick is whichever index reproduces the observed choice.
+    The REGENERATED handlers (BHS/Gen/SyncMgr.lean, `genStep`) are evaluated on the same event with the same pick:
+    a difference from the hand model's step (actions, state summary, table) is answered `err:gen-mismatch`. -/
 def runEvent (s : S) (st : BHS.Sync.State String) (choice : String) (ev : BHS.Sync.Event String) : S × String :=
   let cfg := cfgOf s
   let n := st.peers.length + 1
-  let tries := (List.range n).map fun pick => BHS.Sync.step cfg st pick ev
-  let hit := tries.find? fun r => choice = "?" || choiceStr r.1.syncPeer = choice
-  let r := match hit with
+  let tries := (List.range n).map fun pick => (pick, BHS.Sync.step cfg st pick ev)
+  let hit := tries.find? fun r => choice = "?" || choiceStr r.2.1.syncPeer = choice
+  let (pick, r) := match hit with
     | some r => r
-    | none => BHS.Sync.step cfg st 0 ev
+    | none => (0, BHS.Sync.step cfg st 0 ev)
   let out := " ; ".intercalate (r.2.map actStr)
   let out := if hit.isSome then out
     else (if out.isEmpty then "" else out ++ " ; ") ++ s!"bad-syncpeer model={choiceStr r.1.syncPeer} observed={choice}"
-  ({ s with st := some r.1 }, out)
+  let g := BHS.Sync.Refine.genStep cfg st pick ev
+  let same := g.2 = r.2 && summary g.1 = summary r.1 && g.1.store.map rowStr = r.1.store.map rowStr
+  ({ s with st := some r.1 }, if same then out else s!"err:gen-mismatch generated=[{" ; ".intercalate (g.2.map actStr)}] {summary g.1} model=[{out}] {summary r.1}")
+where
+  summary (st : BHS.Sync.State String) : String :=
+    let cp := match st.nextCp with | some c => toString c.1 | none => "-"
+    let peers := st.peers.map fun q => s!"{q.id}:{if q.inMap then "m" else "-"}{if q.candidate then "c" else "-"}{if q.disc then "d" else "-"}:{q.lastBlock}:{q.prevBegin}:{q.prevStop}"
+    s!"sync={choiceStr st.syncPeer} hf={st.headersFirst} cp={cp} peers={",".intercalate peers}"
 
 def stateStr (st : BHS.Sync.State String) : String :=
   let cp := match st.nextCp with | some c => toString c.1 | none => "-"
@@ -119,7 +129,10 @@ def handle (s : S) : List String → Option (S × String)
     match lookupAll s idxs with
     | some xs => some ({ s with store := run (ccfg s) s.store xs }, "ok")
     | none => some (s, "bad-args")
-  | ["sync", "new"] => some ({ s with st := some (BHS.Sync.new (cfgOf s) s.store) }, "ok")
+  | ["sync", "new"] =>
+    let st := BHS.Sync.new (cfgOf s) s.store
+    let g := BHS.Sync.Refine.genNew (cfgOf s) s.store
+    some ({ s with st := some st }, if stateStr g = stateStr st then "ok" else s!"err:gen-mismatch New generated={stateStr g} model={stateStr st}")
   | ["xsync", "new"] => some (s, "ok")
   | ["sync", "newpeer", choice, p, lb, cand] =>
     match s.st, p.toNat?, lb.toInt? with
